@@ -136,6 +136,53 @@ def ref_rowcount_groups(tabs, nrows, table, group_by):
     return rel.SideResult([], [[]])
 
 
+# ------------------------------------------------------------------------------------------------------------------ C21 helpers
+def ref_rank_to_average(tabs, nrows, table, order_by, partition_by, rank_col):
+    """docstring: the rank of each item is the average of the positions of all items with the same order position, within its partition:
+    rank = (#partition mates strictly before) + (#mates with equal order key + 1) / 2   (order keys assumed non-null)"""
+    cols, rows = _rows(tabs, table)
+    pidx = [cols.index(c) for c in partition_by]
+    oidx = [cols.index(c) for c in order_by]
+    out = []
+    for r in rows:
+        less, eq = [], []
+        for s in rows:
+            same = _same_part(r, s, pidx)
+            keq = zand(*[C.veq(s[i], r[i]) for i in oidx])
+            before = zand(_before_eq(s, r, oidx, [False] * len(oidx)), znot(keq))
+            less.append(z3.If(zand(same, before), 1, 0))
+            eq.append(z3.If(zand(same, keq), 1, 0))
+        rank = z3.ToReal(z3.Sum(less)) + (z3.ToReal(z3.Sum(eq)) + 1) / 2
+        out.append(list(r) + [Cell(FALSE, rank, "f")])
+    return rel.SideResult(list(cols) + [rank_col], out)
+
+
+def ref_locf(tabs, nrows, table, order_by, partition_by, value_col):
+    """docstring: fill each missing value with the latest earlier non-missing value of its partition (order total, keys non-null)"""
+    cols, rows = _rows(tabs, table)
+    pidx = [cols.index(c) for c in partition_by]
+    oidx = [cols.index(c) for c in order_by]
+    vi = cols.index(value_col)
+    rev = [False] * len(oidx)
+    out = []
+    n = len(rows)
+    for i, r in enumerate(rows):
+        res = r[vi]
+        # among mates strictly before r with a value, take the latest: the one no other such mate comes after
+        for j, s in enumerate(rows):
+            if j == i:
+                continue
+            cand = zand(_same_part(r, s, pidx), _before_eq(s, r, oidx, rev), znot(s[vi].null))
+            later = [zand(_same_part(r, t, pidx), _before_eq(t, r, oidx, rev), znot(t[vi].null), _before_eq(s, t, oidx, rev)) for k, t in enumerate(rows) if k not in (i, j)]
+            is_latest = zand(cand, znot(zor(*later)) if later else TRUE)
+            take = zand(r[vi].null, is_latest)
+            res = Cell(z3.If(take, FALSE, res.null), z3.If(take, s[vi].val, res.val), res.kind)
+        rr = list(r)
+        rr[vi] = res
+        out.append(rr)
+    return rel.SideResult(list(cols), out)
+
+
 # ------------------------------------------------------------------------------------------------------------------ C27 windows
 def _same_part(r, s, idx):
     return zand(*[C.same(r[i], s[i]) for i in idx])
